@@ -189,7 +189,7 @@ func try(r *vkit.Run, desc func() interface{}, fn func()) (panicked bool) {
 		if e := recover(); e != nil {
 			panicked = true
 			st := debug.Stack()
-			sig := vkit.PanicSig(st) + ":" + panicClass(e)
+			sig := panicSig(st) + ":" + panicClass(e)
 			var w interface{}
 			if desc != nil {
 				w = desc()
@@ -233,4 +233,19 @@ func anyEligible(rr *bal_slb.VerifRR) bool {
 		}
 	}
 	return false
+}
+
+// panicSig is the innermost bfe frame of a panic stack, with the receiver.
+func panicSig(stack []byte) string {
+	for _, l := range strings.Split(string(stack), "\n") {
+		if strings.HasPrefix(l, "github.com/bfenetworks/bfe/") {
+			f := strings.TrimPrefix(l, "github.com/bfenetworks/bfe/")
+			if i := strings.LastIndex(f, "("); i > 0 {
+				f = f[:i]
+			}
+			f = strings.TrimSuffix(f, ".func1")
+			return "panic:" + f
+		}
+	}
+	return "panic:unknown"
 }
